@@ -1789,6 +1789,27 @@ class Engine:
             if got != want:
                 return ("I3.enum", "enumerate_words(%d) from the default start %r: missing %r extra %r" % (
                     L, s0, sorted((want - got).elements())[:3], sorted((got - want).elements())[:3]))
+            # accepts() without a start state: "any start state is allowed"
+            acc_any = {}
+            for sx in h.S:
+                for l in self._lang(adj, sx, min(L, 2)):
+                    for p, v in l[:8]:
+                        acc_any[p] = True
+            rej = []
+            for p in list(acc_any)[:6]:
+                for x in labs:
+                    q = p + (x,)
+                    if q not in acc_any and not any(self._walk(h, sx, list(q))[1] == len(q) for sx in h.S):
+                        rej.append(q)
+                        break
+            for p, want_acc in [(p, True) for p in list(acc_any)[:12]] + [(q, False) for q in rej[:4]]:
+                w = "".join(p) if as_str else p
+                try:
+                    got = a.accepts(w)
+                except Exception as e:
+                    return ("I3.accepts", "accepts(%r) raised %r" % (w, e))
+                if got is not want_acc:
+                    return ("I3.accepts", "accepts(%r) with start states %r = %r, model %r" % (w, h.S, got, want_acc))
             if single:
                 for p, v in lv[L][:10]:
                     w = "".join(p)
